@@ -260,6 +260,31 @@ func (v Value) safeStr() string {
 	}
 	return v.String()
 }
+
+// safeStrP is SafeStr with the containers being printed on the way down:
+// a container met again on its own path is cut. Well-typed values never
+// contain themselves except through struct references, which isSafeStr
+// already cuts; but Set and Append do not check element types, so a host
+// can build a slice or map that contains itself.
+type safeStrP interface {
+	safeStrP(path []Object) string
+}
+
+func (v Value) safeStrP(path []Object) string {
+	if v, ok := v.value.(safeStrP); ok {
+		return v.safeStrP(path)
+	}
+	return v.safeStr()
+}
+
+func onPath(path []Object, o Object) bool {
+	for _, p := range path {
+		if p == o {
+			return true
+		}
+	}
+	return false
+}
 func newZero(t Type) Value {
 	switch t {
 	case TypeString:
@@ -799,13 +824,19 @@ func (s *sliceT) String() string {
 	return "[" + strings.Join(p, " ") + "]"
 }
 
-func (s *sliceT) SafeStr() string {
+func (s *sliceT) SafeStr() string { return s.safeStrP(nil) }
+
+func (s *sliceT) safeStrP(path []Object) string {
+	if onPath(path, s) {
+		return "[...]"
+	}
+	path = append(path, s)
 	var p []string
 	for _, v := range s.data {
 		if !v.t.isSafeStr() {
 			return "[...]"
 		}
-		p = append(p, v.safeStr())
+		p = append(p, v.safeStrP(path))
 	}
 	return "[" + strings.Join(p, " ") + "]"
 }
@@ -914,13 +945,19 @@ func (m *stringMap) String() string {
 	return "map[" + strings.Join(p, " ") + "]"
 }
 
-func (m *stringMap) SafeStr() string {
+func (m *stringMap) SafeStr() string { return m.safeStrP(nil) }
+
+func (m *stringMap) safeStrP(path []Object) string {
+	if onPath(path, m) {
+		return "map[...]"
+	}
+	path = append(path, m)
 	var p []string
 	for k, v := range m.data {
 		if !v.t.isSafeStr() {
 			return "map[...]"
 		}
-		p = append(p, k+":"+v.safeStr())
+		p = append(p, k+":"+v.safeStrP(path))
 	}
 	return "map[" + strings.Join(p, " ") + "]"
 }
@@ -999,13 +1036,19 @@ func (m *numericMap) String() string {
 	return "map[" + strings.Join(p, " ") + "]"
 }
 
-func (m *numericMap) SafeStr() string {
+func (m *numericMap) SafeStr() string { return m.safeStrP(nil) }
+
+func (m *numericMap) safeStrP(path []Object) string {
+	if onPath(path, m) {
+		return "map[...]"
+	}
+	path = append(path, m)
 	var p []string
 	for k, v := range m.data {
 		if !v.t.isSafeStr() {
 			return "map[...]"
 		}
-		p = append(p, Value{t: m.keyType, num: k}.String()+":"+v.safeStr())
+		p = append(p, Value{t: m.keyType, num: k}.String()+":"+v.safeStrP(path))
 	}
 	return "map[" + strings.Join(p, " ") + "]"
 }
